@@ -20,11 +20,13 @@ RULE = ("Generated meshes of every class (point clouds, polylines = paths/cycles
         "from vlib.gen_surface incl. quad / mixed / polygon faces, conforming tet complexes from vlib.gen_tets, hexahedral grids; "
         "declared hard edges = random subset of face sides in random orientation; declared faces on volumes) with coordinates "
         "drawn from all finite float64 (negative, -0.0, subnormal, 1e+-300, 17-digit values; clamped to float32 range for stl) "
-        "x format x config switches (export_edges_in_obj, complete_edges_from_faces) x ignore_elements x (geogram) 0-4 user "
-        "attributes (bool/int/float arity 1-3, sparse/dense, custom default, on any container; complex/str as a labelled class) "
-        "x layout variation of the independent writer. non-trivial = the mesh holds an element kind beyond vertices that the "
-        "format expresses and a non-integer coordinate (xyz: >=2 points and a non-integer coordinate); distinct = distinct "
-        "realised (mesh, format, switches, attributes, variation).")
+        "x format (one pair of sub-checks per format: <fmt> = save by mouette, file parsed by the independent reader, load by mouette, "
+        "attribute round trip; <fmt>_ext = file written by the independent writer with layout variation, load by mouette) "
+        "x config switches (export_edges_in_obj, complete_edges_from_faces) x ignore_elements x lower/upper-case extension "
+        "x (geogram) 0-4 user attributes (bool/int/float arity 1-3, sparse/dense, custom default, on any container; complex/str as a "
+        "labelled class). non-trivial = the mesh holds an element kind beyond vertices that the format expresses and a non-integer "
+        "coordinate (xyz: >=2 points and a non-integer coordinate); distinct = distinct realised (mesh, format, switches, attributes, "
+        "variation).")
 ASSUMPTIONS = ["meshes are valid inputs of the mesh classes (manifold surfaces, conforming cell complexes, distinct declared edges that are face sides)",
                "coordinates are finite; for stl within the float32 range (the format stores float32)",
                "stl expresses triangles and quads (as two triangles); for larger polygons the exporter's explicit ValueError refusal is accepted",
@@ -1018,8 +1020,8 @@ NAMES = {"obj": "obj", "mesh": "medit", "geogram_ascii": "geogram", "off": "off"
 SUBCHECKS = []
 # (off last: a shard stops at its first failing sub-check, and off carries the quad/tetrahedron dialect finding)
 for _f in ["obj", "mesh", "geogram_ascii", "tet", "xyz", "stl", "off"]:
-    SUBCHECKS.append(SubCheck(NAMES[_f], case_strategy(_f), fn_roundtrip, quick=120 if _f == "stl" else 160, thorough=1500))
-    SUBCHECKS.append(SubCheck(NAMES[_f] + "_ext", case_strategy(_f), fn_ext, quick=80 if _f == "stl" else 120, thorough=1000))
+    SUBCHECKS.append(SubCheck(NAMES[_f], case_strategy(_f), fn_roundtrip, quick=200 if _f == "stl" else 320, thorough=1500))
+    SUBCHECKS.append(SubCheck(NAMES[_f] + "_ext", case_strategy(_f), fn_ext, quick=120 if _f == "stl" else 240, thorough=1000))
 
 
 # ---------------------------------------------------------------------------------------------- proposed known findings
